@@ -64,7 +64,17 @@ pub fn case_ops(scratch: &Path, meta: usize, id: &str, seed: u64, len: usize, po
     let mut r = Runner::new(scratch.join(id), meta);
     r.jcheck = jcheck;
     let pol = *rng.pick(pols);
-    let cfg = GenCfg { reopen_pols: pols.to_vec(), big_weight: 4 + rng.below(8), max_queues: 1 + rng.below(5) as usize, ..Default::default() };
+    let mut cfg = GenCfg { reopen_pols: pols.to_vec(), big_weight: 4 + rng.below(8), max_queues: 1 + rng.below(5) as usize, ..Default::default() };
+    // every fifth history is dominated by metadata: up to 16 queues with names of 9-16 KB, frequent
+    // delete / re-create. Roll-overs are then caused by create_queue and by the GC's own position
+    // entries (which straddle file boundaries while most queues are empty), and `open` finds files
+    // to reclaim that no call has reclaimed
+    if seed % 5 == 2 || seed % 5 == 4 {
+        cfg.create_heavy = true;
+        cfg.churn = seed % 5 == 2;
+        // without churn: nothing but queue creations until 16 queues exist (no record pins a file)
+        cfg.max_queues = if seed % 5 == 2 { 16 } else { 1000 };
+    }
     r.apply(&Op::Open(pol));
     r.apply(&Op::State);
     if rng.chance(1, 3) {
@@ -90,8 +100,18 @@ pub fn case_ops(scratch: &Path, meta: usize, id: &str, seed: u64, len: usize, po
             r.apply(&Op::State);
             r.apply(&Op::Dir);
         }
+        let rolls_before = r.stats.get("rollover");
         r.apply(&op);
         if op.is_mutating() && rng.chance(1, 4) || is_reopen {
+            r.apply(&Op::State);
+        }
+        // a roll-over caused by a create_queue entry: no call has reclaimed anything, the next
+        // `open` is the one that finds the old file unreferenced - restart right there, twice
+        if cfg.create_heavy && cfg.allow_reopen && matches!(op, Op::Create(_)) && r.stats.get("rollover") > rolls_before && rng.chance(2, 3) && !r.dead {
+            for _ in 0..2 {
+                r.apply(&Op::State);
+                r.apply(&Op::Reopen(*rng.pick(&cfg.reopen_pols)));
+            }
             r.apply(&Op::State);
         }
     }
